@@ -18,6 +18,7 @@ pub struct Req<'a> {
     pub partial: bool,
     pub trace: bool,
     pub bytes: &'a [u8],
+    pub splits: Option<Vec<usize>>,
 }
 
 pub const CAP: usize = 200_000;
@@ -96,11 +97,63 @@ where
     }
 }
 
+/// C07 user protocol: partial lexers over growing prefixes, then an ordinary lexer.
+pub fn run_chunked<'s, T>(full: &'s [u8], splits: &[usize], is_str: bool, out: &mut String, mk: &dyn Fn(&'s [u8]) -> Option<&'s T::Source>)
+where
+    T: Logos<'s> + Debug,
+    T::Extras: Default,
+{
+    let mut q = 0usize;
+    out.push_str("\"items\":[");
+    let mut n = 0usize;
+    let mut stages: Vec<usize> = splits.to_vec();
+    stages.push(usize::MAX);
+    for k in stages {
+        let last = k == usize::MAX;
+        let k = if last { full.len() } else { k };
+        if k < q {
+            continue;
+        }
+        let Some(src) = mk(&full[q..k]) else {
+            out.push_str("],\"badutf8\":true");
+            return;
+        };
+        let mut lex: Lexer<'s, T> = if last { Lexer::new(src) } else { Lexer::new_partial(src) };
+        let mut guard = 0usize;
+        while let Some(item) = lex.next() {
+            let sp = lex.span();
+            if n > 0 {
+                out.push(',');
+            }
+            n += 1;
+            match item {
+                Ok(t) => {
+                    let name = format!("{t:?}");
+                    let name = name.split('(').next().unwrap().to_string();
+                    let _ = write!(out, "[\"ok\",\"{}\",{},{}]", name, sp.start + q, sp.end + q);
+                }
+                Err(e) => {
+                    let _ = write!(out, "[\"err\",\"{}\",{},{}]", clean(&format!("{e:?}")), sp.start + q, sp.end + q);
+                }
+            }
+            guard += 1;
+            if guard >= CAP {
+                break;
+            }
+        }
+        q += lex.span().start;
+    }
+    let _ = write!(out, "],\"fin\":[{},{}]", q, q);
+}
+
 pub fn run_str<'s, T>(bytes: &'s [u8], req: &Req, out: &mut String)
 where
     T: Logos<'s, Source = str> + Debug,
     T::Extras: Default,
 {
+    if let Some(splits) = &req.splits {
+        return run_chunked::<T>(bytes, splits, true, out, &|b| std::str::from_utf8(b).ok());
+    }
     match std::str::from_utf8(bytes) {
         Ok(s) => run::<T>(s, req, out),
         Err(_) => out.push_str("\"badutf8\":true"),
@@ -112,6 +165,9 @@ where
     T: Logos<'s, Source = [u8]> + Debug,
     T::Extras: Default,
 {
+    if let Some(splits) = &req.splits {
+        return run_chunked::<T>(bytes, splits, false, out, &|b| Some(b));
+    }
     run::<T>(bytes, req, out)
 }
 
@@ -156,6 +212,11 @@ fn main() {
             partial: flags.contains('p'),
             trace: flags.contains('t'),
             bytes: &boxed,
+            splits: if flags.contains('c') {
+                Some(parts.next().unwrap_or("").split(',').filter(|s| !s.is_empty()).map(|s| s.parse().unwrap()).collect())
+            } else {
+                None
+            },
         };
         let mut body = String::new();
         let r = catch_unwind(AssertUnwindSafe(|| {
